@@ -33,7 +33,10 @@ CONSTANTS
     Fams,       \* subset of {"CPCCA","MCA","CCA","RDA"}
     Pcas,       \* subset of {"none","all","int"}
     Dtypes,     \* subset of {"real","complex"}
-    Wides       \* subset of BOOLEAN: more features than samples (PCA required)
+    Wides,      \* subset of BOOLEAN: more features than samples (PCA required)
+    TLabs       \* sample coordinate labels of Y relative to X: "same", "shifted" (lagged analysis: equal
+                \* counts, other labels) or "reversed" (same labels stored in another order); the two
+                \* fields are paired by position, so nothing in the prediction depends on it
 
 VARIABLES cfg, pred, phase
 vars == <<cfg, pred, phase>>
@@ -79,13 +82,14 @@ Admissible(c) ==
     /\ c.fam # "CPCCA" => c.alpha = <<2, 2>>          \* alpha is fixed by the named method; enumerate it once
     /\ c.wide => c.pca # "none"
     /\ RX(c) <= 7 /\ RY(c) <= 7
+    /\ c.tlab # "same" => (c.pca = "none" /\ ~c.wide)        \* vary the labels on the plain configuration only
 
 Init ==
     /\ phase = "cfg" /\ pred = [k |-> 0]
-    /\ \E sx \in SXs, sy \in SYs, ovl \in Overlaps, al \in Alphas, fam \in Fams, pca \in Pcas, dt \in Dtypes, wide \in Wides :
+    /\ \E sx \in SXs, sy \in SYs, ovl \in Overlaps, al \in Alphas, fam \in Fams, pca \in Pcas, dt \in Dtypes, wide \in Wides, tlab \in TLabs :
          \E k \in 1..Len(sy) :
             /\ cfg = [sx |-> sx, sy |-> sy, ovl |-> ovl, alpha |-> al, fam |-> fam, pca |-> pca, dtype |-> dt,
-                      wide |-> wide, k |-> k]
+                      wide |-> wide, k |-> k, tlab |-> tlab]
             /\ Admissible(cfg)
 
 Fit == /\ phase = "cfg" /\ phase' = "done" /\ pred' = Predict(cfg) /\ UNCHANGED cfg
